@@ -307,6 +307,37 @@ def h_e_opb_sizes(si: int, is_cnf: bool, li: int) -> bool:
     return untraced(_opb_sizes, OPB_SIZES[pick(si, 0, 16)], pickb(is_cnf), pick(li, 0, 1))
 
 
+WIDTHS = [19, 20, 21, 24, 40, 41]
+
+
+def _wide(wi, is_cnf, li):
+    """one wide row (19..41 literals / terms) among short ones: still one row per clause or constraint, every literal shown"""
+    w = WIDTHS[wi]
+    F = CNF() if is_cnf else OPB()
+    if LABELS[li] is None:
+        F.update_variable_number(w)
+    else:
+        F.new_block(w, label=LABELS[li])
+    lits = [(v if v % 3 else -v) for v in range(1, w + 1)]
+    if is_cnf:
+        F.add_clause([1, -2])
+        F.add_clause(lits)
+        F.add_clause([-w])
+    else:
+        F.add_constraint([(1, 1), (2, -2), '>=', 1])
+        F.add_constraint([(1 + (abs(l) % 3), l) for l in lits] + ['>=', w // 2])
+        F.add_clause(lits)
+    return _latex_ok(F, is_cnf, True, True) and _latex_ok(F, is_cnf, False, False) and _opb_ok(F, is_cnf, True, True)
+
+
+def h_e_wide(wi: int, is_cnf: bool, li: int) -> bool:
+    """
+    pre: 0 <= wi <= 5 and 0 <= li <= 5
+    post: _
+    """
+    return untraced(_wide, pick(wi, 0, 5), pickb(is_cnf), pick(li, 0, 5))
+
+
 def h_e_pages(si: int, is_cnf: bool, li: int) -> bool:
     """
     pre: 0 <= si <= 10 and 0 <= li <= 5
